@@ -92,6 +92,11 @@ func (c *memConn) Read(b []byte) (int, error) {
 		if c.localClosed {
 			return 0, net.ErrClosed
 		}
+		if !c.readDL.IsZero() && !time.Now().Before(c.readDL) {
+			// as a real net.Conn: an expired deadline fails the call even if data is waiting
+			c.logf("read-timeout", nil, "")
+			return 0, timeoutError{}
+		}
 		if len(c.in) > 0 {
 			n := len(b)
 			if c.chunk > 0 && n > c.chunk {
@@ -151,6 +156,11 @@ func (c *memConn) Write(b []byte) (int, error) {
 	}
 	if c.localClosed {
 		return 0, net.ErrClosed
+	}
+	if !c.writeDL.IsZero() && !time.Now().Before(c.writeDL) {
+		// as a real net.Conn: an expired write deadline fails the call at once
+		c.logf("write-timeout", nil, "")
+		return 0, timeoutError{}
 	}
 	c.out = append(c.out, b...)
 	c.logf("write", b, "")
